@@ -180,3 +180,33 @@ def read_back(prop, fmt, lang, real, add, meta_base, text=None, reader=None, suf
             continue
         add({'e': 'read', 'p': prop, 'fmt': fmt, 'd': d, 'r': r}, meta)
     return text, results
+
+
+def render_binding_demo(events, name):
+    """corrupt one field of accepted rendering events (a word code point, a head flag, a category text)"""
+    from .trace import binding_demo
+
+    def word(e):
+        if e['e'] == 'tree' and 'x' in e and e.get('fmt') not in ('conll', 'deriv', 'jigg_xml', 'prolog'):
+            n = e['x']
+            while n['kids']:
+                n = n['kids'][0]
+            if n['wordcp']:
+                n['wordcp'] = n['wordcp'] + [33]
+                return e
+
+    def cat(e):
+        if e['e'] == 'tree' and 'x' in e and e.get('fmt') not in ('conll', 'deriv', 'jigg_xml', 'prolog'):
+            e['x']['cat'] = e['x']['cat'] + '?'
+            return e
+
+    def readcat(e):
+        if e['e'] == 'read' and e['r']['kids']:
+            e['r']['kids'] = e['r']['kids'][::-1] if len(e['r']['kids']) == 2 and e['r']['kids'][0] != e['r']['kids'][1] else None
+            return e if e['r']['kids'] else None
+    cs = []
+    if any(word(__import__('copy').deepcopy(e)) for e in events[:4000]):
+        cs += [('leaf_word_changed', word), ('root_category_changed', cat)]
+    if any(e['e'] == 'read' and len(e['r']['kids']) == 2 for e in events):
+        cs.append(('children_of_read_tree_swapped', readcat))
+    return binding_demo('traces/RenderTrace.tla', events, cs, name)
